@@ -8,6 +8,11 @@ package massdb_v1
 
 //@ spec func wfCache(c *MemCache) bool = c != nil && c.size == len(c.data) && c.size >= 0
 
+//@ func NewMemCache
+//@   requires size >= 0 && size <= 281474976710656
+//@   modifies nothing
+//@   ensures result != nil && fresh(result) && wfCache(result) && result.size == size
+
 //@ func (*MemCache).Len
 //@   modifies nothing
 //@   attr pure
@@ -39,13 +44,14 @@ package massdb_v1
 //@ func (*MemCache).WriteToWriter
 //@   requires wf: wfCache(cache)
 //@   requires w != nil && srcStart >= 0 && len >= 0 && srcStart + len <= 281474976710656 && dstStart >= 0 && dstStart + len <= 4611686018427387904
-//@   modifies dirty
+//@   modifies dirty[unbox("*os.File", w)]
 //@   loop count invariant bounds: 0 <= count && count <= len && srcStart + len <= cache.size && srcStart < cache.size && wfCache(cache)
 //@   loop count invariant err-nil: err == nil
 //@   loop count decreases len - count
 //@   ensures whole-or-error: err == nil ==> n == len
 
 //@ func (*MemCache).ReadFromReader
+//@   modifies cache.data[*]
 //@   requires wf: wfCache(cache)
 //@   requires r != nil && dstStart >= 0 && len >= 0 && dstStart + len <= cache.size && cache.size <= 281474976710656
 
@@ -72,24 +78,28 @@ package massdb_v1
 //@   ensures plotted-iff-complete: result0 == (hm.HashMap.checkpoint >= hm.HashMap.volume / 2) && result1 == hm.HashMap.checkpoint
 
 //@ func (*HashMapA).Get
+//@   modifies nothing
 //@   requires wf: wfHM(hm.HashMap) && hm.half == hm.HashMap.volume / 2
 //@   requires key-range: key < hm.HashMap.volume
 //@   assert-at call ReadAt addr: arg2 == 4096 + idxA(old(key), hm.HashMap.bl) * hm.HashMap.recordSize && len(arg1) == hm.HashMap.recordSize
 //@   ensures err == nil ==> len(result0) == hm.HashMap.recordSize
 
 //@ func (*HashMapA).Set
+//@   modifies dirty[hm.HashMap.data]
 //@   requires wf: wfHM(hm.HashMap) && hm.half == hm.HashMap.volume / 2
 //@   requires key-range: key < hm.HashMap.volume
 //@   requires value-len: len(value) >= hm.HashMap.recordSize
 //@   assert-at call WriteAt addr: arg2 == 4096 + idxA(old(key), hm.HashMap.bl) * hm.HashMap.recordSize && len(arg1) == hm.HashMap.recordSize
 
 //@ func (*HashMapB).Get
+//@   modifies nothing
 //@   requires wf: wfHM(hm.HashMap)
 //@   requires key-range: key < hm.HashMap.volume
 //@   assert-at call ReadAt addr: arg2 == 4096 + key * 2 * hm.HashMap.recordSize && len(arg1) == 2 * hm.HashMap.recordSize
 //@   ensures err == nil ==> len(result0) == hm.HashMap.recordSize && len(result1) == hm.HashMap.recordSize
 
 //@ func (*HashMapB).Set
+//@   modifies dirty[hm.HashMap.data]
 //@   requires wf: wfHM(hm.HashMap)
 //@   requires key-range: key < hm.HashMap.volume
 //@   requires value-len: len(x) >= hm.HashMap.recordSize && len(xp) >= hm.HashMap.recordSize
@@ -121,6 +131,8 @@ package massdb_v1
 //@ func (*MassDBV1).prePlotWork
 //@   requires cache != nil && wfMapA(mdb.HashMapA) && mdb.pubKey != nil
 //@   requires clean-at-start: !dirty[mdb.HashMapA.HashMap.data]
+//@   modifies mdb.HashMapA.HashMap.checkpoint, cache.size, cache.data, elems(byte), dirty[mdb.HashMapA.HashMap.data]
+//@   ensures clean-at-end: err == nil ==> !dirty[mdb.HashMapA.HashMap.data]
 //@   loop startPoint invariant wf-a: hmA == mdb.HashMapA && wfMapA(hmA)
 //@   loop startPoint invariant wf-b: cache != nil
 //@   loop startPoint invariant wf-c: recordSize == hmA.HashMap.recordSize
@@ -144,6 +156,7 @@ package massdb_v1
 //@   requires cache != nil && wfMapA(mdb.HashMapA) && wfMapB(mdb.HashMapB) && mdb.HashMapA.HashMap.bl == mdb.HashMapB.HashMap.bl && mdb.pubKey != nil
 //@   requires clean-at-start: !dirty[mdb.HashMapB.HashMap.data]
 //@   attr wraps checkpoint*2
+//@   modifies mdb.HashMapB.HashMap.checkpoint, cache.size, cache.data, elems(byte), dirty[mdb.HashMapB.HashMap.data]
 //@   requires distinct-files: mdb.HashMapA.HashMap.data != mdb.HashMapB.HashMap.data
 //@   loop startPoint invariant wf: hmA == mdb.HashMapA && hmB == mdb.HashMapB && wfMapA(hmA) && wfMapB(hmB) && cache != nil && hmA.HashMap.bl == hmB.HashMap.bl && bl == hmA.HashMap.bl && recordSize == hmB.HashMap.recordSize && half == hmB.HashMap.volume / 2 && len(bs) == 2 * recordSize
 //@   loop startPoint invariant window-tiling: startPoint <= half || startPoint == checkpoint
@@ -162,3 +175,31 @@ package massdb_v1
 
 //@ func (*MassDBV1).plotWork$1
 //@   loop i invariant i-range: 0 <= i
+
+// ---- serving proofs (C07 item 1): a proof is returned only after poc.VerifyProof accepted exactly that object
+
+//@ func (*MassDBV1).GetProof
+//@   modifies nothing
+//@   requires wfMapB(mdb.HashMapB) && mdb.bl == mdb.HashMapB.HashMap.bl
+//@   ensures served-proof-verifies: err == nil ==> result0 != nil && proofOK(result0.X, result0.XPrime, result0.BL, mdb.pubKeyHash, challenge, filter) && result0.BL == mdb.bl
+//@   ensures error-means-nothing-served: err != nil ==> result0 == nil
+
+// ---- plot driver (C10 item 4, C11): map A is removed only when map B is complete
+
+//@ func (*MassDBV1).executePlot
+//@   requires wfMapA(mdb.HashMapA) && wfMapB(mdb.HashMapB) && mdb.HashMapA.HashMap.bl == mdb.HashMapB.HashMap.bl && mdb.pubKey != nil
+//@   requires clean-at-start: !dirty[mdb.HashMapA.HashMap.data] && !dirty[mdb.HashMapB.HashMap.data]
+//@   requires distinct-files: mdb.HashMapA.HashMap.data != mdb.HashMapB.HashMap.data
+//@   attr effect:fs.remove
+//@   assert-at call Remove only-map-A-of-complete-plot: arg0 == mdb.filePathA && mdb.HashMapB.HashMap.checkpoint == mdb.HashMapB.HashMap.volume / 2
+
+//@ func (*MassDBV1).Delete
+//@   requires mdb.HashMapB != nil && mdb.HashMapB.HashMap.data != nil && (mdb.HashMapA != nil ==> mdb.HashMapA.HashMap.data != nil)
+//@   attr effect:fs.remove
+//@   assert-at call Delete$2 refused-while-plotting: mdb.plotting == 0
+
+//@ func (*MassDBV1).Delete$2
+//@   attr modular, effect:fs.remove
+//@   requires mdb != nil
+//@   assert-at call Remove#1 only-own-files: arg0 == mdb.filePathA
+//@   assert-at call Remove#2 only-own-files: arg0 == mdb.filePathB
